@@ -313,7 +313,7 @@ def step (st : St) (line : String) : St × String :=
     | _, _ => (st, "badinput")
   | "render" :: rest =>
     match rule? rest with
-    | some (a, []) => (st, Driver.charsToHex (renderRule a))
+    | some (a, []) => (st, Driver.charsToHex (renderRuleWith T.clientEscapes a))
     | _ => (st, "badinput")
   | ["gate", d, r, b] =>
     match optStr? d, optStr? r, body? b with
